@@ -22,7 +22,25 @@ var (
 	reAgent = regexp.MustCompile(`^b\.WriteString\(m\.AgentID\)$`)
 )
 
-func writeProgram(fsetSrc func(ast.Node) string, fd *ast.FuncDecl) []string {
+func leanBytes(s string) string {
+	parts := make([]string, 0, len(s))
+	for _, c := range []byte(s) {
+		parts = append(parts, strconv.Itoa(int(c)))
+	}
+	return "[" + strings.Join(parts, ", ") + "]"
+}
+
+// field names are resolved to their index in the layout of the structure being written
+func fieldIndex(layout [][2]string, name string) (int, bool) {
+	for i, l := range layout {
+		if l[0] == name {
+			return i, true
+		}
+	}
+	return 0, false
+}
+
+func writeProgram(fsetSrc func(ast.Node) string, fd *ast.FuncDecl, layout [][2]string) []string {
 	if fd == nil {
 		return []string{`.unrecognised "function missing"`}
 	}
@@ -37,16 +55,24 @@ func writeProgram(fsetSrc func(ast.Node) string, fd *ast.FuncDecl) []string {
 			if err != nil {
 				out = append(out, ".unrecognised "+leanStr(t))
 			} else {
-				out = append(out, ".lit "+leanStr(s))
+				out = append(out, ".lit "+leanBytes(s))
 			}
 		case reByte.MatchString(t):
-			out = append(out, ".lit "+leanStr(reByte.FindStringSubmatch(t)[1]))
+			out = append(out, ".lit "+leanBytes(reByte.FindStringSubmatch(t)[1]))
 		case reNum.MatchString(t):
-			out = append(out, ".num "+leanStr(reNum.FindStringSubmatch(t)[1]))
+			if i, ok := fieldIndex(layout, reNum.FindStringSubmatch(t)[1]); ok {
+				out = append(out, fmt.Sprintf(".num %d", i))
+			} else {
+				out = append(out, ".unrecognised "+leanStr(t))
+			}
 		case rePut.MatchString(t):
 			pendingIP = rePut.FindStringSubmatch(t)[1]
 		case t == "b.WriteString(ip.String())" && pendingIP != "":
-			out = append(out, ".ip "+leanStr(pendingIP))
+			if i, ok := fieldIndex(layout, pendingIP); ok {
+				out = append(out, fmt.Sprintf(".ip %d", i))
+			} else {
+				out = append(out, ".unrecognised "+leanStr(t))
+			}
 			pendingIP = ""
 		case reAgent.MatchString(t):
 			out = append(out, ".agent")
@@ -62,20 +88,28 @@ func genJSONWrites(repo string) (genFile, error) {
 	b.WriteString("import Vflow.Model.JsonW\n")
 	b.WriteString(header("JsonWrites", "netflow/v5/marshal.go, ipfix/marshal.go, netflow/v9/marshal.go"))
 	b.WriteString("open Vflow (W)\n\n")
-	for _, e := range []struct{ lean, file, fn string }{
-		{"v5Agent", "netflow/v5/marshal.go", "encodeAgent"},
-		{"v5Header", "netflow/v5/marshal.go", "encodeHeader"},
-		{"v5Flow", "netflow/v5/marshal.go", "encodeFlow"},
-		{"ipfixAgent", "ipfix/marshal.go", "encodeAgent"},
-		{"ipfixHeader", "ipfix/marshal.go", "encodeHeader"},
-		{"v9Agent", "netflow/v9/marshal.go", "encodeAgent"},
-		{"v9Header", "netflow/v9/marshal.go", "encodeHeader"},
+	for _, e := range []struct{ lean, file, fn, lfile, lrecv string }{
+		{"v5Agent", "netflow/v5/marshal.go", "encodeAgent", "", ""},
+		{"v5Header", "netflow/v5/marshal.go", "encodeHeader", "netflow/v5/decoder.go", "PacketHeader"},
+		{"v5Flow", "netflow/v5/marshal.go", "encodeFlow", "netflow/v5/decoder.go", "FlowRecord"},
+		{"ipfixAgent", "ipfix/marshal.go", "encodeAgent", "", ""},
+		{"ipfixHeader", "ipfix/marshal.go", "encodeHeader", "ipfix/decoder.go", "MessageHeader"},
+		{"v9Agent", "netflow/v9/marshal.go", "encodeAgent", "", ""},
+		{"v9Header", "netflow/v9/marshal.go", "encodeHeader", "netflow/v9/decoder.go", "PacketHeader"},
 	} {
 		fset, f, err := parseFile(repo, e.file)
 		if err != nil {
 			return genFile{}, err
 		}
-		prog := writeProgram(func(n ast.Node) string { return src(fset, n) }, funcDecl(f, "Message", e.fn))
+		var layout [][2]string
+		if e.lfile != "" {
+			lfset, lf, err := parseFile(repo, e.lfile)
+			if err != nil {
+				return genFile{}, err
+			}
+			layout = readChain(lfset, funcDecl(lf, e.lrecv, "unmarshal"))
+		}
+		prog := writeProgram(func(n ast.Node) string { return src(fset, n) }, funcDecl(f, "Message", e.fn), layout)
 		fmt.Fprintf(&b, "/-- Message.%s in %s -/\ndef %s : List W := [\n  %s\n]\n\n", e.fn, e.file, e.lean, strings.Join(prog, ",\n  "))
 	}
 	b.WriteString(footer("JsonWrites"))
